@@ -1,6 +1,6 @@
 import MsqProofs.Lemmas.ParseCase5
 /-!
-# C09, parser half — hand-written part 9: two fuel steps of the block by hand (`pSplit`, `pSelectStmt`)
+# C09, parser half — hand-written part 9: three fuel steps of the block by hand (`pSplit`, `pSelectStmt`, `pUnions`)
 -/
 set_option linter.unusedSimpArgs false
 set_option linter.unusedVariables false
@@ -69,6 +69,27 @@ theorem caseF_pSelectStmt (n : Nat) (ih : CaseF d n) :
   cases x0 <;> cases y0 <;> simp only [ceq_def, Option.map_none, Option.map_some, reduceCtorEq, Option.some.injEq] at hr0 <;> dsimp only at h h' <;>
     split_run <;> cel_sync <;> split_run' <;> ce_norm <;> cel_sync <;> ce_norm <;>
     grind -funext (gen := 40) (instances := 20000) (ematch := 30) [upE, upW]
+
+/-- `pUnions`: in lockstep (the generated two-sided split needs 12 minutes) -/
+theorem caseF_pUnions (n : Nat) (ih : CaseF d n) :
+    ∀ x0 x1 x2 y0 y1 y2, ceq (List.map upW) x0 y0 → ceq (List.map (Prod.map up upS)) x1 y1 → CEL x2 y2 → ∀ res res', pUnions d (n+1) x0 x1 x2 = res → pUnions d (n+1) y0 y1 y2 = res' → CER (ceq (List.map (Prod.map up upS))) res res' := by
+  intro x0 x1 x2 y0 y1 y2 hr0 hr1 hr2 res res' h h'
+  subst h h'
+  unfold pUnions
+  refine cer_ite (by rw [cel_setOpHead hr2]) (fun _ _ => ?_) (fun _ _ => ?_)
+  · simp at hr1; simp [hr1, hr2]
+  · rcases cel_firstEnum hr2 Gen.unionTypes with ⟨h1, h2⟩ | ⟨nm, r, r', h1, h2, h3⟩
+    · rw [h1, h2]; simp
+    · rw [h1, h2]; dsimp only
+      have hs := ih.pSingle x0 r y0 r' hr0 h3
+      revert hs; generalize pSingle d n x0 r = a; generalize pSingle d n y0 r' = b; intro hs
+      match a, b, hs with
+      | .ok (s, r1), .ok (s', r1'), hs =>
+        simp at hs; dsimp only
+        exact ih.pUnions _ _ _ _ _ _ hr0 (by simp at hr1 ⊢; simp [hr1, hs.1]) hs.2
+      | .error e, .error e', hs => simp at hs; simp [hs]
+      | .ok (_, _), .error _, hs => simp at hs
+      | .error _, .ok (_, _), hs => simp at hs
 end hand
 
 end PM
